@@ -274,7 +274,7 @@ func (w *c09World) opSend(rng *rand.Rand, ph c09Phase) {
 		w.r.Count("sends_ok", 1)
 	} else {
 		w.r.Count("sends_failed_during_chaos", 1)
-		if ph.quiet {
+		if ph.quiet && !res.panicked {
 			w.convergeFailure(key, res)
 		}
 	}
@@ -436,6 +436,9 @@ func (w *c09World) opEpochNotMatch(rng *rand.Rand, ph c09Phase) {
 		m := proto.Clone(sn.regs[i].Meta).(*metapb.Region)
 		m.StartKey, m.EndKey = w.dec(m.StartKey), w.dec(m.EndKey) // the client decodes region errors before handling them
 		metas = append(metas, m)
+		for _, p := range m.GetPeers() {
+			w.peerUp.Store(p.Id, true) // a store's list carries no health information: every listed peer is offered to the client
+		}
 		v := NewRegionVerID(m.Id, m.RegionEpoch.GetConfVer(), m.RegionEpoch.GetVersion())
 		ids = append(ids, v)
 		if i != ti && v.GetVer() < loc.Region.GetVer() {
@@ -641,7 +644,9 @@ func (w *c09World) checkConverged(keys [][]byte) {
 		w.r.Eval(1)
 		w.logf("  -> ok=%v loops=%d rpcs=%d err=%v", res.ok, res.loops, res.rpcs, res.err)
 		if !res.ok {
-			w.convergeFailure(key, res)
+			if !res.panicked { // a panic was reported as send:client-panic already
+				w.convergeFailure(key, res)
+			}
 			continue
 		}
 		w.r.Count("converged_requests", 1)
